@@ -3,7 +3,7 @@ from pyvc.bounded import NativeBounded
 
 
 class ConfigIndependenceBounded(NativeBounded):
-    property_ids = ["C04", "C02", "C03", "C16", "C07", "C10"]
+    property_ids = ["C04", "C02", "C03", "C16", "C07", "C10", "C05"]
     module = "contracts.determinism_native"
     func = "bounded_config_independence"
     what = ("mosaik.scenario.World.run (whole run: two runs of one scenario compared; the baseline run of every ungrouped scenario also "
